@@ -23,12 +23,14 @@ import vserver
 PROP = "C18"
 MC = "PromSemMC"
 DEVS_SEED = ["lookback_left_open", "range_left_open", "offset_sign", "stale_looks_through", "rate_no_reset",
-             "extrap_no_zero_clamp", "rate_not_per_second", "without_keeps_name", "slide_no_drop", "slide_reappend"]
+             "extrap_no_zero_clamp", "rate_not_per_second", "without_keeps_name", "slide_no_drop", "slide_reappend",
+             "minmax_first_nan_sticks", "sum_skips_nan", "agg_minmax_keeps_nan", "nan_hidden_like_stale"]
 DEVS_IMPL = ["empty_matcher_ignored", "regex_unanchored", "nested_bool_filters", "unknown_label_ignored", "gap_sample_runaway",
-             "one_partition_answers"]
+             "one_partition_answers", "nan_passes_comparison", "minmax_sentinel_leaks"]
 DEV_INV = {"slide_no_drop": "RangeEqInstants", "slide_reappend": "RangeEqInstants", "gap_sample_runaway": "RangeEqInstants"}
 FINDING_OF_DEV = {"empty_matcher_ignored": "F-C18-1", "regex_unanchored": "F-C18-2", "nested_bool_filters": "F-C18-3",
-                  "unknown_label_ignored": "F-C18-4", "gap_sample_runaway": "F-C18-7", "one_partition_answers": "F-C18-8"}
+                  "unknown_label_ignored": "F-C18-4", "gap_sample_runaway": "F-C18-7", "one_partition_answers": "F-C18-8",
+                  "nan_passes_comparison": "F-C18-10", "minmax_sentinel_leaks": "F-C18-11"}
 F_BINOP, F_AGGOFF, F_MULTIPT, F_SEGMENTS = "F-C18-5", "F-C18-6", "F-C18-8", "F-C18-9"
 DB = "prom0"
 TOL = fractions.Fraction(1, 10 ** 9)
@@ -162,7 +164,9 @@ def gen_cases(tier, seed):
 # remote write payload: protobuf prompb.WriteRequest, snappy block format with literal elements only
 
 STALE_BITS = struct.pack("<Q", 0x7ff0000000000002)        # value.StaleNaN
+NAN_BITS = struct.pack("<Q", 0x7ff8000000000001)          # value.NormalNaN: an ordinary NaN sample (what 0/0 in an exporter gives)
 STALE = -9999
+NAN = -8888                                               # PromSem.tla NAN: sample value code of an ordinary NaN
 
 
 def varint(n):
@@ -182,14 +186,14 @@ def pb_bytes(field, data):
 
 
 def pb_write_request(series):
-    """series: [{"labels": {..}, "samples": [[t_ms, float | "stale"]]}]"""
+    """series: [{"labels": {..}, "samples": [[t_ms, float | "stale" | "nan"]]}]"""
     out = b""
     for s in series:
         ts = b""
         for k in sorted(s["labels"]):
             ts += pb_bytes(1, pb_bytes(1, k.encode()) + pb_bytes(2, s["labels"][k].encode()))
         for t, v in s["samples"]:
-            vb = STALE_BITS if v == "stale" else struct.pack("<d", float(v))
+            vb = STALE_BITS if v == "stale" else NAN_BITS if v == "nan" else struct.pack("<d", float(v))
             ts += pb_bytes(2, varint((1 << 3) | 1) + vb + varint((2 << 3) | 0) + varint(t & 0xffffffffffffffff))
         out += pb_bytes(1, ts)
     return out
@@ -243,7 +247,8 @@ class Conc:
         for s in self.data["series"]:
             lab = dict(lab_of(s["lab"]))
             lab["__name__"] = self.metric(lab["__name__"])
-            out.append({"labels": lab, "samples": [[self.t(t), "stale" if v == STALE else float(v)] for t, v in s["pts"]]})
+            out.append({"labels": lab, "samples": [[self.t(t), "stale" if v == STALE else "nan" if v == NAN else float(v)]
+                                                   for t, v in s["pts"]]})
         return out
 
     def dur(self, ticks):
@@ -327,6 +332,8 @@ def val_eq(act, nd):
     if d == 0:
         if n == 0:
             return math.isnan(act)
+        if abs(n) == 2:        # PromSem.tla Huge / NHuge: +-math.MaxFloat64, exactly
+            return act == (sys.float_info.max if n > 0 else -sys.float_info.max)
         return math.isinf(act) and (act > 0) == (n > 0)
     if math.isnan(act) or math.isinf(act):
         return False
@@ -389,7 +396,8 @@ def validate_spec(vh, sets, concs):
     cases = []
     for si, (s, conc) in enumerate(zip(sets, concs)):
         cases.append({"id": si, "lookback_ms": conc.lookback * conc.u, "series": [
-            {"labels": x["labels"], "samples": [[t, v if v == "stale" else repr(v)] for t, v in x["samples"]]} for x in conc.series()],
+            {"labels": x["labels"], "samples": [[t, v if v == "stale" else "NaN" if v == "nan" else repr(v)] for t, v in x["samples"]]}
+            for x in conc.series()],
             "queries": [conc.ref_query(ci, c) for ci, c in enumerate(s["cases"])]})
     chunks = [cases[i::8] for i in range(8) if cases[i::8]]
 
@@ -504,9 +512,9 @@ class Run:
     def known_exact(self, conc, c, series):
         """finding id(s) whose deviation model predicts exactly this answer"""
         for k in c.get("known", []):
-            ids = expand_ids(k["id"])
+            ids = known_ids(k)
             if all(i in self.open for i in ids) and diff_answer(series, exp_series(conc, c, k["ans"])) == "":
-                return k["id"]
+                return join_ids(ids)
         return ""
 
     def ask(self, node, conc, c, timeout=20):
@@ -521,7 +529,8 @@ class Run:
         """RangeEqInstants on the server: its own instant answers at every step of the range query c.
         Returns the id suffix of the matrix (ideal or a deviation model of an open finding) that ALL instants agree with,
         or None."""
-        cands = [("", c["exp"])] + [(k["id"], k["ans"]) for k in c.get("known", []) if all(i in self.open for i in expand_ids(k["id"]))]
+        cands = [("", c["exp"])] + [(join_ids(known_ids(k)), k["ans"]) for k in c.get("known", [])
+                                    if all(i in self.open for i in known_ids(k))]
         answers = []
         for t in steps_of(c):
             ci = {"a": "instant", "e": c["e"], "t": t, "scalar": c["scalar"]}
@@ -563,7 +572,7 @@ class Run:
             if pred:
                 base = self.instants_right(node, conc, c)
                 if base is not None:
-                    kid = pred + ("+" + base.replace("F-C18-", "") if base else "")
+                    kid = join_ids([pred] + (expand_ids(base) if base else []))
         rec = {"set": si, "case": ci, "phase": phase, "query": params["query"], "params": {k: v for k, v in params.items() if k != "query"},
                "detail": d[:1500], "known": kid}
         with self.lock:
@@ -753,6 +762,19 @@ def expand_ids(kid):
     return [parts[0]] + ["F-C18-" + x for x in parts[1:]]
 
 
+def join_ids(ids):
+    """['F-C18-4', 'F-C18-10'] -> 'F-C18-4+10'"""
+    ids = sorted(set(ids), key=lambda i: int(i.rsplit("-", 1)[1]))
+    return ids[0] + "".join("+" + i.replace("F-C18-", "") for i in ids[1:])
+
+
+def known_ids(k):
+    """finding ids behind a predicted answer: the models of the specification that are relevant to the expression (field ids;
+    ToJson prints an empty sequence as [] and a one-element sequence as a list)"""
+    ids = k.get("ids")
+    return list(ids) if ids else expand_ids(k["id"])
+
+
 def walk(e):
     yield e
     for k in ("arg", "l", "r"):
@@ -856,7 +878,8 @@ def report(run, sets, stats, nvalidated, tier, seed, t0):
         "known_finding_cases": {fid: len({(r["set"], r["case"]) for r in rs}) for fid, rs in seen_ids.items()},
     }
     vlib.write_evidence(PROP, tier, seed, "model_checking", cov, time.time() - t0, nviol, [
-        "TLC bounds as in the cfg files named under coverage.tlc; sample values are small integers, times whole seconds",
+        "TLC bounds as in the cfg files named under coverage.tlc; sample values are small integers or the ordinary NaN "
+        "(value.NormalNaN 0x7FF8000000000001, distinct from the staleness marker), times whole seconds",
         "single-node ts-server over HTTP, one database; remote write through /api/v1/write; look-back delta passed per query",
         "the upstream engine (prometheus v0.50.1, the version of /repo/go.mod) over an in-memory storage is the reference of the specification",
         "new series are waited for once (count_over_time over the whole sample set) before judging, as the property allows",
